@@ -69,7 +69,7 @@ var valSelectors = map[string]struct {
 	sort Sort
 }{
 	"strOf": {"sv", SStr}, "numOf": {"nv", SStr}, "boolOf": {"bv", SBool}, "f64Of": {"fv", SF64}, "intOf": {"iv", SInt},
-	"mapOf": {"mv", SInt}, "arrOf": {"av", SSlice}, "opOf": {"ov", SInt}, "byOf": {"yv", SBytes},
+	"mapOf": {"mv", SInt}, "arrOf": {"av", SSlice}, "opOf": {"ov", SInt}, "byOf": {"yv", SBytes}, "xtyOf": {"xty", SInt}, "xvOf": {"xv", SInt},
 }
 
 func tester(ctor string, v *Term) *Term {
@@ -442,6 +442,26 @@ func (e *Env) call(x *ast.CallExpr) *Term {
 		was := e.old.st.Get(e.g, comp)
 		r := Const("?r", SInt)
 		return Forall([]*Term{r}, Implies(Le(r, e.old.st.Get(e.g, "heapTop")), Eq(Select(cur, r), Select(was, r))), Select(cur, r))
+	case "om":
+		// om(m): current abstract state of the ordered map behind reference m
+		return Select(e.st.Get(e.g, "Mem:OMap"), e.trS(x.Args[0], SInt))
+	case "comp":
+		// comp("Mem:OMap"): the current term of a whole state component
+		return e.st.Get(e.g, e.strArg(x.Args[0]))
+	case "unchangedBelowExcept":
+		// like unchangedBelow, but the cell at the given reference may change
+		comp := e.strArg(x.Args[0])
+		if e.old == nil {
+			e.fail("unchangedBelowExcept needs an entry state")
+		}
+		cur := e.st.Get(e.g, comp)
+		was := e.old.st.Get(e.g, comp)
+		r := Const("?r", SInt)
+		conds := []*Term{Le(r, e.old.st.Get(e.g, "heapTop"))}
+		for _, a := range x.Args[1:] {
+			conds = append(conds, Not(Eq(r, e.trS(a, SInt))))
+		}
+		return Forall([]*Term{r}, Implies(And(conds...), Eq(Select(cur, r), Select(was, r))), Select(cur, r))
 	case "distinct":
 		var args []*Term
 		for _, a := range x.Args {
